@@ -379,7 +379,13 @@ func (ex *Exec) load(p PtrV, st *State) Val {
 	}
 	r := selectPath(base, idxs)
 	r = ex.vc.define("ld", r)
-	ex.typeFacts(r, t, st)
+	isGlobal := p.Kind == rootRef && (strings.HasPrefix(p.Ref.S, "g!") || strings.HasPrefix(p.Ref.S, "|g!"))
+	if ex.entryState != nil && (isGlobal || strings.Contains(base.S, "@0") && maxSymNum(base.S) == 0) {
+		// read from the entry heap: whatever reference is stored there existed at function entry
+		ex.typeFacts(r, t, ex.entryState)
+	} else {
+		ex.typeFacts(r, t, st)
+	}
 	return Scalar{r, t}
 }
 
